@@ -11,10 +11,13 @@
 //   (2) search(q, k = 12) returns exactly the live identifiers, for q = every live vector and an outside point,
 //       each with its distance to the LATEST vector of that identifier (the nearest neighbour of a live vector is
 //       its own identifier at distance 0)
-//   (3) dimension() == 2 while an entry is live; tombstone_count() <= number of deletes of present ids since the
+//   (3) dimension() is the entries' dimension while one is live and 0 when the index is empty (an emptied index
+//       then accepts entries of another dimension: the next insert switches between 2 and 3); tombstone_count() <= number of deletes of present ids since the
 //       last rebuild
 //   (4) save + load preserves len, tombstone_count, dimension, the configuration and every search answer.
-// With <= 7 points and ef = 200 the HNSW search is exhaustive in practice (the repository's own tests rely on it).
+// With <= 7 points and ef = 200 the HNSW search is exhaustive in practice (the repository's own tests rely on it) but
+// not always (random level assignment; observed once in ~20 000 runs): a failing history is re-run twice and reported
+// only if it fails all three times.
 use super::*;
 include!("/verif/witness/common.rs");
 
@@ -24,7 +27,12 @@ const HOPS: [HOp; 8] = [HOp::Ins(0), HOp::Ins(1), HOp::Ins(2), HOp::Del(0), HOp:
 
 fn vh_config() -> HnswConfig { HnswConfig { m: 16, ef_construction: 200, ef_search: 200, metric: DistanceMetric::Euclidean } }
 /// a fresh, distinct vector for the n-th insert of the run (no two at distance < 0.5)
-fn vh_vec(n: usize) -> Vec<f32> { vec![1.0 + 3.0 * (n % 7) as f32, 2.0 + 5.0 * (n / 7) as f32] }
+fn vh_vec(n: usize, dim: usize) -> Vec<f32> {
+    let mut v = vec![1.0 + 3.0 * (n % 7) as f32, 2.0 + 5.0 * (n / 7) as f32];
+    if dim == 3 { v.push(0.5); }
+    v
+}
+fn vh_outside(dim: usize) -> Vec<f32> { if dim == 3 { vec![40.0, 40.0, 40.0] } else { vec![40.0, 40.0] } }
 fn vh_dist(a: &[f32], b: &[f32]) -> f64 { a.iter().zip(b).map(|(x, y)| ((x - y) as f64).powi(2)).sum::<f64>().sqrt() }
 
 fn vh_observe(ix: &HnswIndex, probes: &[Vec<f32>]) -> String {
@@ -46,11 +54,15 @@ fn vh_check(ix: &HnswIndex, live: &std::collections::BTreeMap<usize, Vec<f32>>, 
     if tomb > dels_since_rebuild {
         return Some(format!("{ctx}: tombstone_count() = {tomb} but only {dels_since_rebuild} present identifiers were deleted since the last rebuild"));
     }
-    if !live.is_empty() && ix.dimension() != 2 {
-        return Some(format!("{ctx}: dimension() = {} with live 2-dimensional entries", ix.dimension()));
+    let dim = live.values().next().map(|v| v.len()).unwrap_or(0);
+    if !live.is_empty() && ix.dimension() != dim {
+        return Some(format!("{ctx}: dimension() = {} with live {dim}-dimensional entries", ix.dimension()));
+    }
+    if len == 0 && ix.dimension() != 0 {
+        return Some(format!("{ctx}: the index is empty (len() = 0) but dimension() = {}", ix.dimension()));
     }
     let mut probes: Vec<Vec<f32>> = live.values().cloned().collect();
-    probes.push(vec![40.0, 40.0]);
+    probes.push(vh_outside(if dim == 0 { 2 } else { dim }));
     for q in &probes {
         let res = ix.search(q, 12, Some(200));
         let mut ids: Vec<usize> = res.iter().map(|(id, _)| *id).collect();
@@ -74,13 +86,17 @@ fn vh_run(start4: bool, h: &[HOp]) -> Option<String> {
     let mut live: std::collections::BTreeMap<usize, Vec<f32>> = Default::default();
     let mut n = 0usize;
     let mut dels = 0usize;
+    let mut dim = 2usize;   // dimension of the entries; an index that has become empty accepts the other dimension
     if start4 {
-        for id in 10usize..14 { let v = vh_vec(n); n += 1; ix.insert(id, &v).expect("insert"); live.insert(id, v); }
+        for id in 10usize..14 { let v = vh_vec(n, dim); n += 1; ix.insert(id, &v).expect("insert"); live.insert(id, v); }
     }
     for (i, op) in h.iter().enumerate() {
         let ctx = format!("start {} history {:?} after step {i} {:?}", if start4 { "[10,11,12,13]" } else { "[]" }, h, op);
         match *op {
-            HOp::Ins(id) => { let v = vh_vec(n); n += 1; if let Err(e) = ix.insert(id, &v) { return Some(format!("{ctx}: insert failed: {e}")); } live.insert(id, v); }
+            HOp::Ins(id) => {
+                if live.is_empty() && ix.len() == 0 && n > 0 { dim = 5 - dim; }
+                let v = vh_vec(n, dim); n += 1; if let Err(e) = ix.insert(id, &v) { return Some(format!("{ctx}: insert failed: {e}")); } live.insert(id, v);
+            }
             HOp::Del(id) => { if live.remove(&id).is_some() { dels += 1; } ix.delete(id); }
             HOp::DelAbsent => { ix.delete(99); }
             HOp::Rebuild => {
@@ -91,7 +107,7 @@ fn vh_run(start4: bool, h: &[HOp]) -> Option<String> {
             HOp::SaveLoad => {
                 let dir = tempfile::TempDir::new().unwrap();
                 let mut probes: Vec<Vec<f32>> = live.values().cloned().collect();
-                probes.push(vec![40.0, 40.0]);
+                probes.push(vh_outside(live.values().next().map(|v| v.len()).unwrap_or(2)));
                 let before = vh_observe(&ix, &probes);
                 if let Err(e) = ix.save(dir.path()) { return Some(format!("{ctx}: save failed: {e}")); }
                 let loaded = match HnswIndex::load(dir.path()) { Ok(l) => l, Err(e) => return Some(format!("{ctx}: load failed: {e}")) };
@@ -122,7 +138,12 @@ fn verif_witness() {
     for h in &hs {
         for start4 in [false, true] {
             cases += 1;
-            if let Some(f) = vh_run(start4, h) {
+            // the graph is built with random level assignment and the search is approximate: a live entry is
+            // very occasionally missed even at this size.  A defect in the state tracking is deterministic, a missed
+            // neighbour is not: a history is reported only if it fails three times out of three.
+            let mut failure = vh_run(start4, h);
+            if failure.is_some() { for _ in 0..2 { if vh_run(start4, h).is_none() { failure = None; break; } } }
+            if let Some(f) = failure {
                 // one report per distinct (last step kind, failure kind): the same defect shows in thousands of histories
                 let key = format!("{:?}|{}", h.last(), f.split(": ").nth(1).unwrap_or("").split(|c: char| c.is_ascii_digit()).next().unwrap_or(""));
                 if seen.insert(key) { vw_report(f); }
